@@ -222,7 +222,7 @@ func (f *c15File) text(perm func(n int) []int) string {
 	return b.String()
 }
 
-var c15BenchNames = []string{"Encode", "Decode", "Sort/size=1", "Sort/size=10", "Sort/size=100", "Sort/size=1Ki", "Sort/size=1010", "Sort/size=8Ki", "Sort/size=8100", "Sort/size=1k", "Hash/size=1/align=0", "Hash/size=1/align=1", "Hash/size=10/align=0", "Walk", "Fib-8", "Fib-16", "Sort/size=1-8", "Sort/size=20.1.1", "Sort/size=3", "Sort/size=20", "Sort/size=v2", "Pair/a=1k/b=1000", "Pair/a=1000/b=1k", "Pair/a=1k/b=1k", "Pair/a=1e3/b=1000", "Pair/a=2/b=1Ki", "Pair/a=2/b=1024"}
+var c15BenchNames = []string{"Encode", "Decode", "Sort/size=1", "Sort/size=10", "Sort/size=100", "Sort/size=1Ki", "Sort/size=1010", "Sort/size=8Ki", "Sort/size=8100", "Sort/size=1k", "Hash/size=1/align=0", "Hash/size=1/align=1", "Hash/size=10/align=0", "Walk", "Fib-8", "Fib-16", "Sort/size=1-8", "Sort/size=20.1.1", "Sort/size=3", "Sort/size=20", "Sort/size=v2", "Pair/a=1/b=23", "Pair/a=12/b=3", "Wide/a=AAAAAAAAAAAAAAAAAAAAAAAAAAAAAAAAAAAAAAAAAAAAAAAAAAAAAAAAAAAA/b=x", "Wide/a=y/b=BBBBBBBBBBBBBBBBBBBBBBBBBBBBBBBBBBBBBBBB", "Wide/a=AAAAAAAAAAAAAAAAAAAAAAAAAAAAAAAAAAAAAAAAAAAAAAAAAAAAAAAAAAAA/b=BBBBBBBBBBBBBBBBBBBBBBBBBBBBBBBBBBBBBBBB", "Pair/a=1k/b=1000", "Pair/a=1000/b=1k", "Pair/a=1k/b=1k", "Pair/a=1e3/b=1000", "Pair/a=2/b=1Ki", "Pair/a=2/b=1024"}
 var c15Units = []string{"ns/op", "B/op", "allocs/op", "MB/s", "widgets", "ns/frob", "ns/MB", "sec/MB", "MB/ns", "B/ns", "sec/op", "B/s"}
 
 // c15NaNRun: the generated input holds NaN measurements. Only single-column runs get them: comparing two samples
@@ -312,8 +312,8 @@ func c15GenFiles(T *sim.Tape) []*c15File {
 }
 
 var c15Flags = [][][]string{
-	{{}, {}, {"-col", "note"}, {"-col", ".file,note"}, {"-col", "goarch"}, {"-col", "note@alpha"}, {"-col", "note@(opt base opt2)"}, {"-col", "/a@num"}},
-	{{}, {}, {"-row", ".name"}, {"-row", "/size"}, {"-row", ".name,/size"}, {"-row", ".fullname@alpha"}, {"-row", "/size@num"}, {"-row", "/a@num,/b@num"}, {"-row", ".name,/b@num,/a@num"}},
+	{{}, {}, {"-col", "note"}, {"-col", ".file,note"}, {"-col", "goarch"}, {"-col", "note@alpha"}, {"-col", "note@(opt base opt2)"}, {"-col", "/a@num"}, {"-col", "/a@alpha,/b@alpha"}, {"-col", ".file,/a@alpha,/b@alpha"}},
+	{{}, {}, {"-row", ".name"}, {"-row", "/size"}, {"-row", ".name,/size"}, {"-row", ".fullname@alpha"}, {"-row", "/size@num"}, {"-row", "/a@num,/b@num"}, {"-row", "/a,/b"}, {"-row", ".name,/b@num,/a@num"}},
 	{{}, {}, {"-table", "pkg"}, {"-table", "goos"}, {"-table", ".config@alpha"}},
 	{{}, {}, {}, {"-ignore", "note"}, {"-ignore", "pkg"}, {"-ignore", "/size"}, {"-ignore", "goarch,note"}},
 	{{}, {}, {}, {"-filter", "/size:1"}, {"-filter", ".unit:ns/op"}, {"-filter", "-/align:1"}, {"-filter", ".name:Sort OR .name:Hash"}, {"-filter", ".unit:(B/op OR allocs/op)"}},
